@@ -117,7 +117,7 @@ func check(c Case) error {
 	defer os.Remove(p)
 	var z poly.Sequence
 	vk.StaleFile(p, 2*len(text)+500)
-	if err := safely("Write/Read", func() { genbank.Write(x, p); z = genbank.Read(p) }); err != nil {
+	if err := safely("Write/Read", func() { vk.AlternateTempDir(func() { genbank.Write(x, p) }); z = genbank.Read(p) }); err != nil {
 		return err
 	}
 	gz, gzTrees := gbk.ExpectedOf(z)
